@@ -1,7 +1,7 @@
 """Source of MANIFEST.json (bin/gen-manifest)."""
 SETUP = "bin/setup"
 HOOKS = {"guard": "verif",
-         "enable": "bin/check builds harness/cmd/driver with `go build -tags verif -overlay harness/bin/overlay.json`: the overlay adds the add-only shim files of harness/shims as virtual files of /repo packages; /repo itself carries no hook",
+         "enable": "bin/check builds harness/cmd/driver with `go build -tags verif -overlay harness/bin/overlay.json`: the overlay adds the add-only shim files of harness/shims as virtual files of /repo packages (bastion, client, omniwitness, feeder/sumdb; in-package test files for cmd/feedbastion and the bastion fuzz target; and, for the production binary built from /repo/cmd/omniwitness, one file in package main that points omniwitness.ConfigLogs at the file named by VERIF_LOGS_YAML); /repo itself carries no hook",
          "baseline_off_cmd": "cd /repo && GOFLAGS=-mod=mod go test -vet=off -count=1 ./...",
          "source_commits": [], "add_only": True}
 ENGINES = [
